@@ -134,9 +134,16 @@ LIST_OF = {SECTION: SECLIST, STR: STRLIST}
 EXTRA_COQ_TYPES = {}      # type name -> Coq type, for the types a sibling translator adds (translate_detect2.py)
 
 
+EXTRA_COQ_TYPE_FUNS = []  # functions type -> Coq type or None, for the structured types a sibling translator adds
+
+
 def coq_type(t):
     if t in EXTRA_COQ_TYPES:
         return EXTRA_COQ_TYPES[t]
+    for f in EXTRA_COQ_TYPE_FUNS:
+        r = f(t)
+        if r is not None:
+            return r
     if is_opt(t):
         return "option (%s)" % coq_type(t[1])
     if is_tup(t):
@@ -256,6 +263,15 @@ def tuple_text(names):
 
 
 class FunctionTranslator:
+    # constructs refused wherever they occur in a block (a sibling translator that gives some of them a
+    # reading overrides the tuple)
+    REFUSED = (ast.NamedExpr, ast.Global, ast.Nonlocal, ast.With, ast.Import, ast.ImportFrom,
+               ast.FunctionDef, ast.AsyncFunctionDef, ast.ClassDef, ast.Lambda, ast.ListComp,
+               ast.SetComp, ast.DictComp, ast.Try, ast.Raise, ast.Assert, ast.Yield,
+               ast.YieldFrom, ast.Await, ast.AsyncFor, ast.AsyncWith, ast.Match)
+
+    MAX_PASSES = 4       # passes over a function until the element types of its `[]` are settled
+
     def __init__(self, path, rel, fn, spec, done, cls=None):
         self.path, self.rel, self.fn, self.spec, self.cls = path, rel, fn, spec, cls
         self.done = done            # py name -> spec of the functions translated before (callable by that name here)
@@ -629,10 +645,7 @@ class FunctionTranslator:
                         target(t)
                 elif isinstance(n, ast.For):
                     target(n.target, loopvars.add)
-                elif isinstance(n, (ast.NamedExpr, ast.Global, ast.Nonlocal, ast.With, ast.Import, ast.ImportFrom,
-                                    ast.FunctionDef, ast.AsyncFunctionDef, ast.ClassDef, ast.Lambda, ast.ListComp,
-                                    ast.SetComp, ast.DictComp, ast.Try, ast.Raise, ast.Assert, ast.Yield,
-                                    ast.YieldFrom, ast.Await, ast.AsyncFor, ast.AsyncWith, ast.Match)):
+                elif isinstance(n, self.REFUSED):
                     self.fail(n, "unsupported construct")
                 elif isinstance(n, ast.Call):
                     f = n.func
@@ -1232,7 +1245,7 @@ class FunctionTranslator:
 
     def translate(self):
         fn = self.fn
-        for _ in range(4):
+        for _ in range(self.MAX_PASSES):
             self.retry = False
             text = self.translate_once()
             if not self.retry:
